@@ -588,8 +588,28 @@ def check_object_scope(prog, rep, rule='R3.5'):
         memo[f.id] = out
         return out
 
+    # bookkeeping helpers: a method other methods of the scope call, that itself calls nothing on the reader (`mCurrentKey.Reset(); ++mIndex;`
+    # extracted from SerializeValue / OnFinishChildScope). Their effect is accounted in every caller through the summaries; taken alone
+    # they are settlements, like OnFinishChildScope, and are not balanced by themselves.
+    called = set()
+    for m in methods:
+        if m.body is None:
+            continue
+        for x in m.walk():
+            if x['k'] == 'CXXMemberCallExpr':
+                c = m.callee(x) or {}
+                if c.get('cls') == m.cls and c.get('id') != m.id:
+                    called.add(c.get('id'))
+    API = ('SerializeValue', 'OpenObjectScope', 'OpenArrayScope', 'OpenBinaryScope', 'VisitKeys', 'FindValueByKey', 'ResetKey')
+    bookkeeping = set()
+    for m in methods:
+        if m.body is None or m.id not in called or m.name in API or m.name.startswith('~'):
+            continue
+        if not any(x['k'] == 'CXXMemberCallExpr' and ((m.callee(x) or {}).get('clsq', '') or '').endswith(('IMsgPackReader', 'CMsgPackStringReader', 'CMsgPackStreamReader'))
+                   for x in m.walk()) and not any(x['k'] == 'CXXMemberCallExpr' and (m.callee(x) or {}).get('cls') == m.cls for x in m.walk()):
+            bookkeeping.add(m.id)
     for f in sorted(methods, key=lambda x: x.id):
-        if f.sym['kind'] == 'ctor' or f.name in ('GetPath', 'GetEstimatedSize', 'ReadKey', 'OnFinishChildScope') or f.id in key_readers:
+        if f.sym['kind'] == 'ctor' or f.name in ('GetPath', 'GetEstimatedSize', 'ReadKey', 'OnFinishChildScope') or f.id in key_readers or f.id in bookkeeping:
             continue   # OnFinishChildScope is the deferred settlement of a child scope (accounted where the child is created)
         rep.touch(f)
         d = summaries(f)
